@@ -1,6 +1,6 @@
 (* C16 — timed lists behave like ordered collections of their rows.  Property theorems only. *)
 From Coq Require Import ZArith QArith Qround List Bool Sorting.Permutation.
-From RV Require Import Base.PyNum Frame.Frame Lists.TimedList Lists.SeqSpec Proofs.TimedListProofs.
+From RV Require Import Base.PyNum Frame.Frame Lists.TimedList Lists.SeqSpec Proofs.TimedListProofs Corr.RunC16 Proofs.CtorProofs.
 Import ListNotations.
 Open Scope Q_scope.
 
@@ -21,6 +21,13 @@ Theorem C16_sorted : forall asc f,
   /\ sorted_prop (fcols f) asc (abs_rows (sort_values COL_OFFSET asc f))
   /\ fcols (sort_values COL_OFFSET asc f) = fcols f.
 Proof. exact sort_values_refines. Qed.
+
+(* a list built from items, from a dict, as an empty list of n rows or from nothing has exactly the declared fields
+   (and empty(n) has n rows of the declared defaults) - for every list class (declared fields and defaults are parameters
+   regenerated from the live classes and fed to the runner per case) *)
+Theorem C16_constructors_declared_fields : forall kind declared defaults n items,
+  ctor_spec kind declared defaults n items (ctor_model kind declared defaults n items) = true.
+Proof. exact ctor_model_meets_spec. Qed.
 
 (* non-vacuity: a concrete hold list with ties, non-default labels; inclusive flag matters *)
 Example C16_example :
